@@ -28,14 +28,21 @@ package main
 //	pp.Construct(op, pp2)             ↦ C01.construct core op pp pp2   (polyclip-go, pinned by hash)
 //	x.BoundingBox(), a.Overlaps(b)    ↦ bbox x, overlaps a b           (polyclip-go, pinned by hash)
 //	polyclip.CLIPLINE/XOR/UNION/…     ↦ COp.clipline, COp.bool Op.xor, …
+//	float64 (finite)                  ↦ Rat: + - * / exact; constants by their float64 value; an untyped integer
+//	                                    constant where a float64 is expected is that rational
+//	math.Max  math.Abs  math.Ldexp    ↦ Go.fmax, Go.fabs, Go.ldexp;  `_, e := math.Frexp(m)` ↦ let e := Go.frexpExp m
+//	q (Polygon/MultiPolygon) passed as a Polygonal ↦ Operand.poly q / Operand.multi q
 
 import (
 	"fmt"
 	"go/ast"
 	"go/parser"
 	"go/token"
+	"math"
+	"math/big"
 	"os"
 	"path/filepath"
+	"strconv"
 	"strings"
 )
 
@@ -51,6 +58,7 @@ var leanType = map[string]string{
 	"Linear":       "List (List P)", // the dynamic type returned by both Clip methods is MultiLineString
 	"MultiPolygon": "List (List (List P))", "[]Polygon": "List (List (List P))",
 	"Polygonal": "Operand", "polyclip.Op": "COp", "*Bounds": "Go.Box", "int": "Int", "bool": "Bool",
+	"float64": "Rat", // finite values only: the model works on the exact rational value of every float
 }
 
 // element type of slice types
@@ -70,6 +78,8 @@ func zeroOf(t string) string {
 		return "(⟨0, 0⟩ : P)"
 	case "Int":
 		return "(0 : Int)"
+	case "Rat":
+		return "(0 : Rat)"
 	case "Bool":
 		return "false"
 	}
@@ -112,6 +122,9 @@ var fns = []fnInfo{
 	{"multipolygon.go", "MultiPolygon", "Polygons", "multiPolygon_Polygons", false},
 	{"bounds.go", "*Bounds", "Polygons", "bounds_Polygons", false},
 	{"polygon.go", "Polygon", "op", "polygon_op", true},
+	{"linestring.go", "", "maxAbs", "maxAbs", false},
+	{"linestring.go", "", "scalePath", "scalePath", false},
+	{"linestring.go", "", "clipLine", "clipLine", true},
 	{"linestring.go", "LineString", "Clip", "lineString_Clip", true},
 	{"multilinestring.go", "MultiLineString", "Clip", "multiLineString_Clip", true},
 }
@@ -119,6 +132,78 @@ var fns = []fnInfo{
 var consts = map[string]string{
 	"polyclip.CLIPLINE": "COp.clipline", "polyclip.XOR": "(COp.bool Op.xor)", "polyclip.UNION": "(COp.bool Op.union)",
 	"polyclip.INTERSECTION": "(COp.bool Op.inter)", "polyclip.DIFFERENCE": "(COp.bool Op.diff)",
+}
+
+// declarations of the listed functions (Lean name -> declaration), for parameter and result types
+var declOf = map[string]*ast.FuncDecl{}
+
+func paramTypes(fd *ast.FuncDecl) []string {
+	var out []string
+	for _, p := range fd.Type.Params.List {
+		for range p.Names {
+			out = append(out, typeName(p.Type))
+		}
+	}
+	return out
+}
+
+func resultType(fd *ast.FuncDecl) string {
+	if fd == nil || fd.Type.Results == nil || len(fd.Type.Results.List) != 1 {
+		return ""
+	}
+	return typeName(fd.Type.Results.List[0].Type)
+}
+
+// a float64 constant as an exact rational (the value the Go compiler gives it as a float64)
+func ratLit(v string) string {
+	f, err := strconv.ParseFloat(v, 64)
+	if err != nil || math.IsInf(f, 0) || math.IsNaN(f) {
+		xfail("float literal %s", v)
+	}
+	r := new(big.Rat)
+	r.SetFloat64(f)
+	if r.IsInt() {
+		return "(" + r.Num().String() + " : Rat)"
+	}
+	return "((" + r.Num().String() + " : Rat) / (" + r.Denom().String() + " : Rat))"
+}
+
+// exprAs translates e where a value of Go type `want` is expected: an untyped integer constant becomes a
+// float64 constant, a Polygon / MultiPolygon becomes the Polygonal interface value holding it
+func (t *tr) exprAs(e ast.Expr, want string) string {
+	if want == "float64" {
+		if b, ok := e.(*ast.BasicLit); ok && (b.Kind == token.INT || b.Kind == token.FLOAT) {
+			return ratLit(b.Value)
+		}
+	}
+	if want == "Polygonal" {
+		switch t.typeOf(e) {
+		case "MultiPolygon":
+			return "(Operand.multi " + t.expr(e) + ")"
+		case "Polygon":
+			return "(Operand.poly " + t.expr(e) + ")"
+		case "Polygonal":
+		default:
+			xfail("argument of type %q where a Polygonal is expected", t.typeOf(e))
+		}
+	}
+	return t.expr(e)
+}
+
+func (t *tr) argsFor(lean string, as []ast.Expr) string {
+	fd := declOf[lean]
+	if fd == nil {
+		return t.args(as)
+	}
+	pts := paramTypes(fd)
+	if len(pts) != len(as) {
+		xfail("%d arguments for %s", len(as), lean)
+	}
+	var s []string
+	for i, a := range as {
+		s = append(s, t.exprAs(a, pts[i]))
+	}
+	return strings.Join(s, " ")
 }
 
 // translation of one function
@@ -140,12 +225,50 @@ func (t *tr) typeOf(e ast.Expr) string {
 			return typeName(x.Args[0])
 		}
 		if sel, ok := x.Fun.(*ast.SelectorExpr); ok {
+			if typeName(sel) == "math.Max" || typeName(sel) == "math.Abs" || typeName(sel) == "math.Ldexp" {
+				return "float64"
+			}
 			switch sel.Sel.Name {
 			case "toPolyClip":
 				return "polyclip.Polygon"
 			case "Polygons":
 				return "[]Polygon"
 			}
+			rt := t.typeOf(sel.X)
+			for _, fi := range fns {
+				if fi.recv != "" && fi.recv == rt && fi.name == sel.Sel.Name {
+					return resultType(declOf[fi.lean])
+				}
+			}
+		}
+		if id, ok := x.Fun.(*ast.Ident); ok {
+			for _, fi := range fns {
+				if fi.recv == "" && fi.name == id.Name {
+					return resultType(declOf[fi.lean])
+				}
+			}
+		}
+	case *ast.ParenExpr:
+		return t.typeOf(x.X)
+	case *ast.BasicLit:
+		if x.Kind == token.FLOAT {
+			return "float64"
+		}
+	case *ast.UnaryExpr:
+		if x.Op == token.SUB {
+			return t.typeOf(x.X)
+		}
+	case *ast.BinaryExpr:
+		switch x.Op {
+		case token.ADD, token.SUB, token.MUL, token.QUO:
+			if a := t.typeOf(x.X); a != "" {
+				return a
+			}
+			return t.typeOf(x.Y)
+		}
+	case *ast.SelectorExpr:
+		if (x.Sel.Name == "X" || x.Sel.Name == "Y") && (t.typeOf(x.X) == "Point" || t.typeOf(x.X) == "polyclip.Point") {
+			return "float64"
 		}
 	case *ast.CompositeLit:
 		return typeName(x.Type)
@@ -176,6 +299,9 @@ func (t *tr) expr(e ast.Expr) string {
 		if x.Kind == token.INT {
 			return "(" + x.Value + " : Int)"
 		}
+		if x.Kind == token.FLOAT {
+			return ratLit(x.Value)
+		}
 		xfail("literal %s", x.Value)
 	case *ast.UnaryExpr:
 		switch x.Op {
@@ -186,10 +312,19 @@ func (t *tr) expr(e ast.Expr) string {
 		}
 		xfail("unary operator %s", x.Op)
 	case *ast.BinaryExpr:
-		a, b := t.expr(x.X), t.expr(x.Y)
+		want := ""
+		if t.typeOf(x.X) == "float64" || t.typeOf(x.Y) == "float64" {
+			want = "float64"
+		}
+		a, b := t.exprAs(x.X, want), t.exprAs(x.Y, want)
 		switch x.Op {
 		case token.ADD, token.SUB, token.MUL:
 			return "(" + a + " " + x.Op.String() + " " + b + ")"
+		case token.QUO:
+			if want != "float64" {
+				xfail("integer division")
+			}
+			return "(" + a + " / " + b + ")"
 		case token.EQL:
 			return "(decide (" + a + " = " + b + "))"
 		case token.NEQ:
@@ -342,11 +477,19 @@ func (t *tr) call(x *ast.CallExpr) string {
 				if fi.core {
 					c = "core "
 				}
-				return "(← " + fi.lean + " " + c + t.args(x.Args) + ")"
+				return "(← " + fi.lean + " " + c + t.argsFor(fi.lean, x.Args) + ")"
 			}
 		}
 		xfail("call of %s", f.Name)
 	case *ast.SelectorExpr:
+		switch typeName(f) {
+		case "math.Max":
+			return "(Go.fmax " + t.exprAs(x.Args[0], "float64") + " " + t.exprAs(x.Args[1], "float64") + ")"
+		case "math.Abs":
+			return "(Go.fabs " + t.exprAs(x.Args[0], "float64") + ")"
+		case "math.Ldexp":
+			return "(Go.ldexp " + t.exprAs(x.Args[0], "float64") + " " + t.expr(x.Args[1]) + ")"
+		}
 		recv := t.expr(f.X)
 		rt := t.typeOf(f.X)
 		switch f.Sel.Name {
@@ -379,7 +522,7 @@ func (t *tr) call(x *ast.CallExpr) string {
 				if fi.core {
 					c = "core "
 				}
-				return "(← " + fi.lean + " " + c + recv + " " + t.args(x.Args) + ")"
+				return "(← " + fi.lean + " " + c + recv + " " + t.argsFor(fi.lean, x.Args) + ")"
 			}
 		}
 		xfail("method %s on receiver of type %q", f.Sel.Name, rt)
@@ -464,6 +607,17 @@ func (t *tr) block(ss []ast.Stmt, ind string, tail string, out *strings.Builder)
 	for i, s := range ss {
 		switch x := s.(type) {
 		case *ast.AssignStmt:
+			if len(x.Lhs) == 2 && len(x.Rhs) == 1 && x.Tok == token.DEFINE {
+				// `_, e := math.Frexp(m)`
+				c, ok := x.Rhs[0].(*ast.CallExpr)
+				l0, ok0 := x.Lhs[0].(*ast.Ident)
+				l1, ok1 := x.Lhs[1].(*ast.Ident)
+				if ok && ok0 && ok1 && l0.Name == "_" && typeName(c.Fun) == "math.Frexp" && len(c.Args) == 1 {
+					t.vars[l1.Name] = "int"
+					fmt.Fprintf(out, "%slet %s := Go.frexpExp %s\n", ind, l1.Name, t.exprAs(c.Args[0], "float64"))
+					continue
+				}
+			}
 			if len(x.Lhs) != 1 || len(x.Rhs) != 1 {
 				xfail("parallel assignment")
 			}
@@ -679,6 +833,17 @@ func extract(repo string) int {
 	var sb strings.Builder
 	sb.WriteString(genHeader)
 	rc := 0
+	for _, fi := range fns {
+		if _, ok := files[fi.file]; !ok {
+			f, err := parser.ParseFile(fset, filepath.Join(repo, fi.file), nil, 0)
+			if err != nil {
+				fmt.Fprintf(os.Stderr, "cannot parse %s: %v\n", fi.file, err)
+				return 2
+			}
+			files[fi.file] = f
+		}
+		declOf[fi.lean] = findFunc(files[fi.file], fi.recv, fi.name)
+	}
 	for _, fi := range fns {
 		f, ok := files[fi.file]
 		if !ok {
